@@ -15,6 +15,10 @@ if [ ! -x "$DRV" ] || [ "$VERIF/tools/factdrv/src/main.rs" -nt "$DRV" ]; then
   (cd "$VERIF/tools/factdrv" && CARGO_NET_OFFLINE=true cargo +nightly build --release --offline >/dev/null 2>&1) || { echo "factdrv build failed" >&2; exit 2; }
 fi
 mkdir -p "$OUT" "$TARGET"
+# one extraction at a time per target directory: the fingerprint removal below and cargo's own build must not
+# interleave with another extraction (checks may be started concurrently, also from different cache namespaces)
+exec 9>"$VERIF/.cache/target-$CONFIG.lock"
+flock 9
 rm -f "$OUT"/*.jsonl
 # cargo's freshness cache would skip the wrapper: drop the workspace members' fingerprints and metadata.
 for m in incan incan_core incan_syntax incan_stdlib incan_derive incan-lsp generate_lang_reference; do
